@@ -287,3 +287,57 @@ MANIFEST_TEXT["C02"] = {
     "text": "Compositional: the solver decides that the per-infoset bound is 2*max(R,0)/t (never negative, zero iff no positive regret), that one traversal step adds exactly the counterfactual regret and reach-weighted strategy, that vanilla parameters leave accumulators undiscounted, and that the driver returns per-player sums of the same iteration's values and stops only when their maximum is below the threshold. The bound-dominates-regret inequality then follows from the CFR theorem, which is trusted, not re-proved.",
     "note": "No end-to-end comparison of bound and true regret is made by the solver (whole solves are out of reach). Thread counts > 1 are outside (see C06).",
 }
+
+# ---------------------------------------------------------------------------------------------
+_TT = "vanilla::thread_threshold::<FullChance> (the generic function also serves the chance-sampled method)"
+K_THREADS = [
+    H(f"c06_thread_threshold_leaves_no_work_t{t}", f"{VAN}::threads", "quick", functions=[_TT], playback=False, native="c06",
+      bounds=f"tree: root with two decision children over four terminals; task target {t} (the driver passes 3 x threads; the internal tests pass 1); strategies k/4; unwind {u}",
+      role="on return nothing is left in `work`: the driver hands only `queue` to the pool and reuses both vectors in the next iteration")
+    for t, u in [(1, 2), (2, 3), (3, 4), (4, 5)]
+] + [
+    H(f"c06_thread_threshold_cut_t{t}", f"{VAN}::threads", "quick", functions=[_TT], playback=True,
+      bounds=f"tree: root (either player) over a decision node (either player) and a terminal; task target {t}; strategies k/4",
+      role="tasks are nodes of the tree carrying exactly their path's reach (own component only), no node twice, no task below another")
+    for t in (1, 2)
+]
+REGISTRY["C06"] = {
+    "level": "model_checking",
+    "explanation": "Kani is sequential, so thread schedules are outside. What decides whether k threads compute what one thread computes is the sequential decomposition code: "
+                   "the frontier computation (a cut with exact reach, nothing left behind in the reused workspace), the atomic/mutex variants of the kernels and of the update, "
+                   "each decided by the solver; a workspace counterexample is confirmed natively by solving a family of trees with 1 and k threads through the public API.",
+    "assumptions": ["the driver (rayon: par_drain of `queue`, cached traversal, payoff cache) is outside the encoding; 'nothing left in work' is a sufficient condition for what the driver needs",
+                    "atomic accumulation order / real schedules are outside"],
+    "harnesses": K_THREADS + [K_ADVANCE[1], K_MATCH[1]],
+}
+MANIFEST_TEXT["C06"] = {
+    "engine": "kani",
+    "technique": "bounded model checking (Kani/CBMC SAT) of the sequential task-decomposition code and the atomic-kernel variants; native 1-vs-k-thread sweep as counterexample confirmation",
+    "text": "For task targets 1..4 on a depth-2 tree and all quarter-grid strategies the solver shows thread_threshold returns a cut of the tree with exact reach and leaves nothing in the reused workspace, and that the atomic/mutex kernel and update variants compute what the plain ones do. Real interleavings are not explored (Kani is sequential); a workspace counterexample is only reported after 1-thread and k-thread solves of a family of trees actually differ.",
+    "note": "Outside: solve_generic_multi itself (rayon), atomic summation order, schedules. 'work is empty on return' is sufficient, not necessary; a non-reproducing candidate is reported as inconclusive, never as a violation.",
+}
+K_XTHREADS = [
+    H("c07_external_threshold_leaves_no_work_first_t2", f"{EXT}::xthreads", "quick", functions=["external::thread_threshold::<true>", "external::next_nodes::<true>"], playback=False, native="c07",
+      bounds="tree of the updating player's nodes (root, two decision children, four terminals); target 2; unwind 3", role="nothing left in `work` on return"),
+    H("c07_external_threshold_leaves_no_work_first_t3", f"{EXT}::xthreads", "quick", functions=["external::thread_threshold::<true>", "external::next_nodes::<true>"], playback=False, native="c07",
+      bounds="same tree; target 3; unwind 4", role="nothing left in `work` on return"),
+    H("c07_external_threshold_leaves_no_work_second_t3", f"{EXT}::xthreads", "quick", functions=["external::thread_threshold::<false>", "external::next_nodes::<false>"], playback=False, native="c07",
+      bounds="same tree owned by player two; second pass; target 3; unwind 4", role="nothing left in `work` on return"),
+    H("c07_external_threshold_follows_sample", f"{EXT}::xthreads", "quick", functions=["external::thread_threshold::<true>", "external::next_nodes::<true>", "CachedInfoset::sample"],
+      stubs=["H-draw hook (logged symbolic draw)"], playback=True,
+      bounds="opponent node at the root over two nodes of the updating player; target 2; every draw", role="frontier lies on the sampled path only; exactly one draw for the opponent infoset, reused by the later traversal"),
+]
+REGISTRY["C07"] = {
+    "level": "model_checking",
+    "explanation": "Same scheme as C06 for the sampled solvers: the frontier computation of the external-sampling solver (both passes) and the generic one of the chance-sampled solver leave nothing behind, "
+                   "the frontier follows the logged draws, and each infoset draws once per pass (cache state machines). Native confirmation: chance-sampled solves of chance-free trees with 1 and k threads "
+                   "(deterministic), and repeated multi-threaded sampled solves (panic / invalid result detection).",
+    "assumptions": ["H-draw: draws are symbolic and logged under cfg(kani)", "single_player_iter's parallel section, solve_external_multi and real schedules are outside"],
+    "harnesses": K_XTHREADS + [h for h in K_THREADS if "leaves_no_work_t3" in h.name] + [K_C10[1]] + K_DRAW,
+}
+MANIFEST_TEXT["C07"] = {
+    "engine": "kani",
+    "technique": "bounded model checking (Kani/CBMC SAT) of the sampled solvers' task-decomposition code with symbolic logged draws; native sweep as confirmation",
+    "text": "The solver shows, for every draw, that the external-sampling frontier lies on the sampled path, that an opponent infoset is sampled once and the cached sample is reused by the later traversal, that both passes' frontier computations (and the generic one used by the chance-sampled solver) leave nothing in the reused workspace, and that the chance/opponent caches draw once per pass. Schedules themselves are outside; the unique-visit argument is checked on the sequential code only.",
+    "note": "Bounded to depth-2 trees and task targets 2..3. The parallel section of single_player_iter / solve_external_multi (rayon, try_lock) is outside; workspace counterexamples are confirmed natively (deterministic Sampled-on-chance-free-trees comparison, multi-thread panic detection).",
+}
